@@ -245,7 +245,8 @@ CLAIMED = {
          "finding C03/*/subs/c). SIMD&FP transfer registers: four-way differential only (falcon executor / Lean IL model / Lean A64 "
          "interpreter / mirror) over class-exhaustive word sweeps and boundary+random states.",
     design_ref="DESIGN.md §6 C03",
-    note="The specification is written from knowledge of the Arm ARM, which is not in the sandbox (no second source). CONSTRAINED "
+    note="Tie of the mirror to falcon: syntactic equality of the emitted IL on every generated word; where that fails, a z3 query (tools/il_equiv.py, encoder self-tested against the Lean IL semantics on the same run) decides equivalence of the two ILs for all states - validation support for the tie, not a theorem; z3 and the encoder then join the trusted base. "
+         "The specification is written from knowledge of the Arm ARM, which is not in the sandbox (no second source). CONSTRAINED "
          "UNPREDICTABLE encodings, data aborts, alignment faults and accesses wrapping past 2^64 are excluded and counted; memory ordering is not modelled; the mirror is tied to falcon by syntactic comparison, not by proof.",
     technique="Lean 4 mirror of the lifter + class theorems over all words, addresses and states; executable differential"),
  "C01": dict(
@@ -262,7 +263,8 @@ CLAIMED = {
          "bytes from the same state (signal-frame context switch with the trap flag). Template sweep of every accepted mnemonic x "
          "prefixes x 14 ModRM/SIB shapes.",
     design_ref="DESIGN.md §6 C01",
-    note="cmovcc/jcc, stack and control transfer, shifts and bit tests at instruction level, segment- or 67-prefixed memory operands and all of 32-bit mode have no instruction-level theorem (differential only). 32-bit mode has no silicon oracle (Lean spec "
+    note="Tie of the mirror to falcon: syntactic equality of the emitted IL on every generated word; where that fails, a z3 query (tools/il_equiv.py, encoder self-tested against the Lean IL semantics on the same run) decides equivalence of the two ILs for all states - validation support for the tie, not a theorem; z3 and the encoder then join the trusted base. "
+         "cmovcc/jcc, stack and control transfer, shifts and bit tests at instruction level, segment- or 67-prefixed memory operands and all of 32-bit mode have no instruction-level theorem (differential only). 32-bit mode has no silicon oracle (Lean spec "
          "only). fs/gs forms have no silicon comparison. PF/AF are outside the property. 66-prefixed near branches are not generated "
          "(Intel and AMD differ). The fixed-width bit-vector theorems use bv_decide and therefore depend on its _native.bv_decide.ax_* "
          "axioms (listed per theorem in the evidence).",
@@ -278,7 +280,8 @@ CLAIMED = {
          "syntactically with the proved mirror on every generated word. Remaining classes: three-way differential (falcon executor / Lean "
          "IL model / Lean ISA interpreter) over the whole accepted opcode space, register-field sweeps and boundary states.",
     design_ref="DESIGN.md §6 C02",
-    note="Interpreters transcribed from memory of the MIPS32 and Power ISA manuals (not in the sandbox, no second implementation); "
+    note="Tie of the mirror to falcon: syntactic equality of the emitted IL on every generated word; where that fails, a z3 query (tools/il_equiv.py, encoder self-tested against the Lean IL semantics on the same run) decides equivalence of the two ILs for all states - validation support for the tie, not a theorem; z3 and the encoder then join the trusted base. "
+         "Interpreters transcribed from memory of the MIPS32 and Power ISA manuals (not in the sandbox, no second implementation); "
          "universality over encodings is proved for the (A) classes only; jr is _partial; CR SO bits excluded (XER[SO] is not modelled by "
          "falcon); one lemma (PpcCarry.addc_eq) uses bv_decide and carries its native axioms; 11 known findings (link/target evaluated "
          "after the delay slot, division by zero, misaligned accesses, XER[SO], bdnzl).",
